@@ -66,6 +66,8 @@ def lift(v):
         return app("slice", v.lo, v.hi, v.step).t
     if isinstance(v, VOpaque):
         return z3.Const(fresh_name("np:opaque"), NP)
+    if isinstance(v, VClass):
+        return z3.Const("np:class:" + v.name, NP)           # dtype=float and the like
     raise Unsupported(f"cannot pass {v!r} to an opaque array operation")
 
 
@@ -154,6 +156,14 @@ def _prep(eng, st, v):
         if seq is not None and seq.known_len is not None and seq.known_len <= 8:
             return app("list", *[_prep(eng, st, seq.get(st, z3.IntVal(i))) for i in range(seq.known_len)])
         return VNp(z3.Const(fresh_name("np:pylist"), NP))
+    if isinstance(v, VObj) and v.kind == "dict":
+        rec = st.objs[v.oid]
+        if rec.get("pure") and len(rec["pyitems"]) <= 8 and not any(isinstance(x, tuple) for _, x in rec["pyitems"]):
+            flat = []
+            for k, x in rec["pyitems"]:
+                flat += [VConc(k) if isinstance(k, str) else VInt(k), _prep(eng, st, x)]
+            return app("dict", *flat)
+        return VNp(z3.Const(fresh_name("np:pydict"), NP))
     return v
 
 
@@ -180,7 +190,7 @@ def h_call_method(eng, st, recv, name, pos, kw):
 
 def h_getitem(eng, st, obj, idx):
     if isinstance(obj, VNp) or (isinstance(idx, VNp) and not isinstance(obj, VObj)):
-        return [("ok", st, app("getitem", obj, idx))]
+        return [("ok", st, app("getitem", obj, _prep(eng, st, idx)))]
     return None
 
 
